@@ -1,8 +1,10 @@
 package main
 
 import (
+	"context"
 	"encoding/json"
 	"fmt"
+	"net/http/httptest"
 	"sort"
 	"strings"
 	"sync"
@@ -206,6 +208,10 @@ func runC13(c *Case) error {
 type c14In struct {
 	Setup []IMat `json:"setup"`
 	Q     OReq   `json:"q"` // references m0 as stored; the inline twin is built from setup[0]
+	// optional: before the computes, m0 receives a PUT ?merge=true whose swap-out is abandoned because
+	// the request context reports cancellation at the CancelAt-th poll of Mmap's copy loop
+	Merge    *IMat `json:"merge,omitempty"`
+	CancelAt int   `json:"cancel_at,omitempty"`
 }
 
 func genC14(r *Rng, tier string) []*Case {
@@ -239,6 +245,18 @@ func genC14(r *Rng, tier string) []*Case {
 			q.Alpha = &a
 		}
 		in.Q = q
+		if r.Chance(35) {
+			u := reqMat(r, n) // same size: adds, erases and re-weights entries
+			if r.Bool() {     // only re-weights entries that exist: the number of entries stays the same
+				u = IMat{Size: n}
+				for _, e := range m.Es {
+					if r.Chance(60) {
+						u.Es = append(u.Es, Coo{R: e.R, C: e.C, V: JFloat(1 + float64(r.Intn(9)))})
+					}
+				}
+			}
+			in.Merge, in.CancelAt = &u, r.Intn(3)
+		}
 		cs = append(cs, mk("StoredVsInline", in))
 	}
 	return cs
@@ -258,6 +276,27 @@ func runC14(c *Case) error {
 	e := newOapiServer()
 	if err := putSetup(e, in.Setup); err != nil {
 		return err
+	}
+	if in.Merge != nil {
+		req := httptest.NewRequest("PUT", "/basic/v1/local-trust/m0?merge=true", strings.NewReader(in.Merge.json())).
+			WithContext(&pollCtx{Context: context.Background(), k: in.CancelAt})
+		req.Header.Set("Content-Type", "application/json")
+		rec := httptest.NewRecorder()
+		e.ServeHTTP(rec, req)
+		if rec.Code != 200 {
+			return fmt.Errorf("merge PUT -> %d %s", rec.Code, rec.Body.String())
+		}
+		// from here on the reference is what GET reports
+		g := httpDo(e, "GET", "/basic/v1/local-trust/m0", "")
+		var gb getBody
+		if g.Code != 200 || json.Unmarshal([]byte(g.Body), &gb) != nil {
+			return fmt.Errorf("GET after merge -> %d", g.Code)
+		}
+		im := IMat{Size: gb.Size}
+		for _, en := range gb.Entries {
+			im.Es = append(im.Es, Coo{R: en.I, C: en.J, V: JFloat(en.V)})
+		}
+		in.Setup = append([]IMat{im}, in.Setup[1:]...)
 	}
 	before := getAll(e, len(in.Setup))
 	qs := in.Q
